@@ -342,3 +342,46 @@ Proof.
   intros i j a b Ha Hb.
   destruct a as [|[|[|[|a]]]]; try lia; destruct b as [|[|[|[|b]]]]; try lia; cbn [Hn]; intros E; split; lia.
 Qed.
+
+(* ---------- cross-registry key equality is harmless for HEAD's lookups ---------- *)
+(* the two registries are different accounts: a write into registry k changes no read of another registry,
+   whatever the keys are (no disjointness hypothesis) *)
+Definition wkind (w : wcmd) : option N :=
+  match w with WNone => None | WNew k _ _ _ _ _ => Some k | WUpd k _ _ _ _ => Some k | WDel k _ => Some k | WAbort k _ _ => Some k end.
+
+Theorem cross_registry_write : forall H idkey au st w k' i', wkind w <> Some k' ->
+  view_cur H idkey au (k_apply_w H idkey st w) k' i' = view_cur H idkey au st k' i'.
+Proof.
+  intros H idkey au st w k' i' Hk.
+  assert (E : forall k, Some k <> Some k' -> N.eqb k' k = false) by (intros k Hn; apply N.eqb_neq; congruence).
+  destruct w as [|k i ap stake acct [|]|k i stake acct [x|]|k i|k i lft]; cbn [k_apply_w wkind] in *; try reflexivity;
+    unfold view_cur, kupd; rewrite (E k Hk); reflexivity.
+Qed.
+
+(* the typeless GetMiner: a key of the proposer registry that holds something else than a record (the stake / account /
+   status cell of ANOTHER proposer whose derived key equals this id) decodes to nothing, and the validator registry
+   answers *)
+Theorem typeless_falls_back : forall H idkey au (s : kst) i,
+  rd_info (kcur s 1%N (k0 idkey i)) = None ->
+  get_miner (view H idkey au s) i =
+  match by_id (view H idkey au s) 0%N i with Some x => Some (0%N, x) | None => None end.
+Proof.
+  intros H idkey au s i Hn. unfold get_miner, by_id at 1. cbn [view cur view_cur s_info]. rewrite Hn. reflexivity.
+Qed.
+
+(* the variant that picks the registry by probing the proposer key for ANY bytes is wrong exactly there *)
+Definition get_miner_probe (H : key -> key) (idkey : N -> key) (au : N -> N) (s : kst) (i : N) : option (N * slot) :=
+  match kcur s 1%N (k0 idkey i) with
+  | None | Some CEmpty => match by_id (view H idkey au s) 0%N i with Some x => Some (0%N, x) | None => None end
+  | Some _ => match by_id (view H idkey au s) 1%N i with Some x => Some (1%N, x) | None => None end
+  end.
+
+Theorem typeless_probe_refuted : forall H idkey au (s : kst) i n sl,
+  kcur s 1%N (k0 idkey i) = Some (CStake n) ->          (* id i = H(id of a proposer): its stake cell sits here *)
+  by_id (view H idkey au s) 0%N i = Some sl ->          (* and id i is a registered validator *)
+  get_miner (view H idkey au s) i = Some (0%N, sl) /\ get_miner_probe H idkey au s i = None.
+Proof.
+  intros H idkey au s i n sl Hc Hv. split.
+  - rewrite typeless_falls_back by (rewrite Hc; reflexivity). now rewrite Hv.
+  - unfold get_miner_probe, by_id. rewrite Hc. cbn [view cur view_cur s_info]. rewrite Hc. reflexivity.
+Qed.
